@@ -39,26 +39,30 @@ Qed.
 Print Assumptions stop_on_first_failure.
 
 (* "The ID placeholder lets a later item address the object an earlier item of the same
-   batch created": after a successful creating item c, and any items in between that are
-   not creating items, the placeholder holds the new identifier and an identifier-less
-   item is processed exactly like the same item naming that identifier. *)
-Theorem placeholder_within_batch : forall h s p c s1 p1 mid it s2 p2,
+   batch created": a successful creating item c (Create, Register, CreateKeyPair, DeriveKey)
+   leaves in the placeholder an identifier u issued by this very item, of an object owned
+   by the requester; after any items in between that are not creating items the placeholder
+   still holds u, and an identifier-less item is processed exactly like the same item naming u. *)
+Theorem placeholder_within_batch : forall h s p c s1 p1,
     creating (it_body c) = true -> handle h s p c = (OK, s1, p1) ->
-    forallb (fun m => negb (creating (it_body m))) mid = true ->
-    exec session body handle h s1 p1 mid = (s2, p2) ->
-    creating (it_body it) = false ->
-    p2 = Some (next (working s)) /\
-    handle h s2 p2 it =
-    handle h s2 p2 {| it_op := it_op it; it_bid := it_bid it; it_body := with_target (next (working s)) (it_body it) |}.
+    exists u, p1 = Some u /\ next (working s) <= u < next (working s1) /\
+      (exists o, In o (objs (working s1)) /\ o_uid o = u /\ o_owner o = h_user h) /\
+      forall mid it s2 p2,
+        forallb (fun m => negb (creating (it_body m))) mid = true ->
+        exec session body handle h s1 p1 mid = (s2, p2) ->
+        creating (it_body it) = false ->
+        p2 = Some u /\
+        handle h s2 p2 it =
+        handle h s2 p2 {| it_op := it_op it; it_bid := it_bid it; it_body := with_target u (it_body it) |}.
 Proof. exact placeholder_within_batch_thm. Qed.
 Print Assumptions placeholder_within_batch.
 
-(* ... and the identifier it holds is the one of an object that now exists, owned by the requester *)
+(* the identifier is one the request itself issued, of an object that is now published *)
 Theorem placeholder_names_created_object : forall h s p it s' p',
     creating (it_body it) = true -> handle h s p it = (OK, s', p') ->
-    p' = Some (next (working s)) /\
-    exists o, o_uid o = next (working s) /\ o_owner o = h_user h /\
-              working s' = insert o (working s) /\ committed s' = working s'.
+    exists u o, p' = Some u /\ next (working s) <= u < next (working s') /\
+                In o (objs (working s')) /\ o_uid o = u /\ o_owner o = h_user h /\
+                committed s' = working s'.
 Proof. exact creating_sets_placeholder. Qed.
 Print Assumptions placeholder_names_created_object.
 
